@@ -7,6 +7,6 @@
         (threshold >= 1 && self.signatures@.len() >= 1 && signed_msg(self.metadata) is Some
             && sig_ids_distinct(self.signatures@) && key_ids_distinct($KEYS)
             && exists|good: Set<KeyId>| good.len() >= threshold && forall|id: KeyId| good.contains(id) ==> counted_ok(*self, $KEYS, id))
-            ==> r is Ok,   // [C04,C01,C02]
+            ==> r is Ok,   // [C04,C01,C02,C09]
         // exact: success is a function of the views (later duplicates of a key id win, as in std's collect::<HashMap>)
-        r is Ok <==> verify_ok(*self, threshold, $KEYS),   // [C04,C13,C01,C02,C12]
+        r is Ok <==> verify_ok(*self, threshold, $KEYS),   // [C04,C13,C01,C02,C12,C09]
